@@ -147,7 +147,7 @@ def replay(path):
         import signal
         from jugverif import procmode
         p = d['replay']['params']
-        obs = procmode.signal_case(p.get('n', 4), p['k'], signal.SIGKILL, barrier=p.get('barrier', False))
+        obs = procmode.signal_case(p.get('n', 4), p['k'], signal.SIGKILL, barrier=p.get('barrier', False), set_jugdir=p.get('set_jugdir', False))
         run = core.Run('C13', 'quick')
         procmode.judge_kill(run, obs, p)
         print({k: v for k, v in obs.items() if k not in ('calls', 'calls_before')})
